@@ -369,7 +369,7 @@ Qed.
 Definition target (o : op) : option nat :=
   match o with
   | NewBN _ _ => None
-  | AddNodes a _ _ _ | AddEdges a _ _ | RemoveNodes a _ | AddCpds a _ | RemoveCpds a _ | RemoveCpdObjs a _ | Do a _ _ | Copy a
+  | AddNodes a _ _ _ | AddEdges a _ _ | RemoveEdges a _ _ | RemoveNodes a _ | AddCpds a _ | RemoveCpds a _ | RemoveCpdObjs a _ | Do a _ _ | Copy a
   | RandomCpds a _ _ _ _ => Some a
   end.
 
@@ -384,7 +384,7 @@ Proof. intros H. unfold commit, set_ms. rewrite (upd_same _ _ _ H). destruct s; 
 
 Lemma step_shape s o : shape s o.
 Proof.
-  destruct o as [eb lat|a xs ws lat|a es ws|a xs|a cs|a xs|a cs|a xs ip|a|a isd ns dr ip]; simpl.
+  destruct o as [eb lat|a xs ws lat|a es ws|a es strict|a xs|a cs|a xs|a cs|a xs ip|a|a isd ns dr ip]; simpl.
   - destruct (bn_add_edges_g g_empty eb) as [g o1] eqn:E. destruct o1; [|apply sh_same; simpl; rewrite E; reflexivity].
     destruct (acyclicb g) eqn:Ea; [|apply sh_same; simpl; rewrite E, Ea; reflexivity].
     eapply sh_push; [|simpl; rewrite E, Ea; reflexivity].
@@ -406,6 +406,9 @@ Proof.
     destruct (wlen_bad (length es) ws) eqn:Ew; [apply sh_same; simpl; rewrite En, Ew; reflexivity|].
     destruct (bn_add_edges_g (bg m) es) as [g' o1] eqn:E.
     eapply (sh_commit s _ a m s (log_ew (set_bg m g') _)); [reflexivity|exact En|apply ext_same_cells; reflexivity|simpl; rewrite En, Ew, E; reflexivity].
+  - destruct (nth_error (ms s) a) as [m|] eqn:En; [|apply sh_same; simpl; rewrite En; reflexivity].
+    destruct (bn_remove_edges_g (bg m) es strict) as [g' o1] eqn:E.
+    eapply (sh_commit s _ a m s (set_bg m g')); [reflexivity|exact En|apply ext_same_cells; reflexivity|simpl; rewrite En, E; reflexivity].
   - destruct (nth_error (ms s) a) as [m|] eqn:En; [|apply sh_same; simpl; rewrite En; reflexivity].
     destruct (m_remove_nodes s m xs) as [[s' m'] o1] eqn:E.
     eapply (sh_commit s _ a m s' m'); [reflexivity|exact En|eapply ext_remove_nodes; exact E|simpl; rewrite En, E; reflexivity].
